@@ -241,8 +241,9 @@ inline Rational ratFromString(const char* desc)
             assert(std::all_of(s.begin() + 1, s.end(), ::isdigit));
 
             // remove padding 0s
+            // (keep one digit: "-0.0" must become "-0/10", not "-/10")
             if(s[0] == '-')
-               s.erase(1, SOPLEX_MIN(s.substr(1).find_first_not_of('0'), s.size() - 1));
+               s.erase(1, SOPLEX_MIN(s.substr(1).find_first_not_of('0'), s.size() - 2));
             else
                s.erase(0, SOPLEX_MIN(s.find_first_not_of('0'), s.size() - 1));
 
